@@ -188,7 +188,7 @@ var c07Messages = map[string]string{
 // documented defects appears only if that defect is present; an accepted specification has exactly one
 // definition per terminal.
 func harnessC07WellFormed() {
-	variant := verif.Pick("variant", 4)
+	variant := verif.Pick("variant", 5)
 	k := verif.Len("k", 0, specWfK)
 	toks, _ := parser.VerifPoolTokens(k, variant)
 	parser.VerifSetLexer(toks)
